@@ -9,6 +9,7 @@
 //! liblzma cannot ENCODE lzip: reference-made .lz files are liblzma LZMA_Alone streams (lc=3 lp=0
 //! pb=2, end marker) wrapped in a member frame by this harness.
 //! Commands and executors: see a_c02.rs.
+// requires-verif-hooks (hook H3: FilterConfig / FilterType re-exports); left out of guard-off builds by build.rs
 use super::a_c02::*;
 use super::a_c04::{crc32, damage, lzip_field_edit, xz_field_edit};
 use crate::reflib::{self, RefLzma};
